@@ -517,6 +517,10 @@ fn replay_cmd(ctx: &Ctx, path: &std::path::Path) -> i32 {
             }
         };
     }
+    if case["engine"] == "threadmc" {
+        // found by the thread explorer on the real daemon (single-producer check): replay it there
+        return crate::threadmc::run(ctx);
+    }
     if case["directed"].is_string() {
         // directed phases are single deterministic schedules: re-run the phase and show what it reports now
         let mut agg = Agg::new();
@@ -737,13 +741,25 @@ fn run_reader_prop(ctx: &Ctx, prop: Prop, lit: (usize, u64)) -> i32 {
             plans.push(Plan { works: record_all(rep, &base), mode: Mode::Sc, dev_bound: unb, stop_points: true, full_spin: true, fresh_clock: false, label: "SC, an identical record republished, writer stops for ever at every point" });
         }
     }
+    // (C02) the explorer's verdicts are about ONE producer; that the daemon has only one is checked on the daemon
+    // itself, before this engine's hooks replace the thread explorer's
+    let single_producer = if prop == Prop::C02 { Some(crate::threadmc::single_producer_scan(ctx)) } else { None };
+    install();
     let mut agg = Agg::new();
+    if let Some((_, vs)) = &single_producer {
+        for v in vs {
+            agg.add(v.signature.clone(), 0, v.text.clone(), v.replay.clone());
+        }
+    }
     let mut plan_info = vec![];
     for p in &plans {
         plan_info.push((p.label.to_string(), p.works.len()));
         run_plan(ctx, prop, p, deadline, &mut agg);
     }
     let mut extra: Vec<(&str, Value)> = vec![];
+    if let Some((ev, _)) = single_producer {
+        extra.push(("single_producer_check_on_the_real_daemon", ev));
+    }
     if prop == Prop::C04 {
         let multi: Vec<&Work> = plans.iter().flat_map(|p| p.works.iter()).collect();
         let wv = writer_oracles_c04(&multi, &mut agg);
